@@ -1,4 +1,5 @@
 import PlinioVerif.Lemmas.CostSpec
+import Mathlib.Data.List.Induction
 /-!
 # C15 — cost-function look-up depends on the layer, not on registration order
 
@@ -142,6 +143,52 @@ theorem default_iff (es : List (Entry Spec Fn)) (s : Spec) :
       | some u =>
         have : es.filter Entry.unc ≠ [] := by intro h; simp [h] at hum
         simp [this]
+
+/-! ### histories: registrations and look-ups interleaved on one specification object -/
+
+/-- what a user does with one `CostSpec` object: register a pattern, or look a layer up -/
+inductive HOp (Spec Fn : Type) where
+  | reg (e : Entry Spec Fn)
+  | get (s : Spec)
+
+/-- the object after a history: the registered list (a look-up changes nothing), and the answers
+given so far -/
+def runHist (ops : List (HOp Spec Fn)) : List (Entry Spec Fn) × List (Res Fn) :=
+  ops.foldl (fun st op => match op with
+    | .reg e => (st.1 ++ [e], st.2)
+    | .get s => (st.1, st.2 ++ [lookup st.1 s])) ([], [])
+
+def regsOf (ops : List (HOp Spec Fn)) : List (Entry Spec Fn) :=
+  ops.filterMap fun op => match op with | .reg e => some e | .get _ => none
+
+theorem runHist_regs (ops : List (HOp Spec Fn)) : (runHist ops).1 = regsOf ops := by
+  unfold runHist regsOf
+  induction ops using List.reverseRecOn with
+  | nil => rfl
+  | append_singleton ops op ih =>
+    rw [List.foldl_append, List.filterMap_append]
+    cases op with
+    | reg e => simp only [List.foldl_cons, List.foldl_nil, List.filterMap_cons, List.filterMap_nil]; rw [ih]
+    | get s => simp only [List.foldl_cons, List.foldl_nil, List.filterMap_cons, List.filterMap_nil,
+        List.append_nil]; rw [ih]
+
+/-- **a look-up depends on the layer and on the patterns registered so far only**: whatever was
+looked up before (a model was built on the specification, then the specification was extended),
+the answer is the documented rule on the registered patterns -/
+theorem lookup_ignores_earlier_lookups (ops : List (HOp Spec Fn)) (s : Spec)
+    (h : nUnc (regsOf ops) ≤ 1) :
+    (runHist (ops ++ [.get s])).2.getLast? = some (specLookup (regsOf ops) s) := by
+  unfold runHist
+  rw [List.foldl_append]
+  simp only [List.foldl_cons, List.foldl_nil, List.getLast?_append, List.getLast?_singleton,
+    Option.some_or]
+  have := runHist_regs ops
+  unfold runHist at this
+  rw [this, lookup_eq_spec _ h]
+
+/-- non-vacuity: look-up, extension with a depthwise-style pattern, look-up again -/
+example : (runHist (Spec := Bool) [.reg ⟨none, (0 : Nat)⟩, .get true, .reg ⟨some id, 1⟩, .get true]).2
+    = [.ok 0, .ok 1] := by decide
 
 /-! ### non-vacuity and the regression witness for the pinned tree -/
 
